@@ -114,6 +114,18 @@ func H_C13_equiv(v *V) {
 	if header != "" {
 		text = header + "\n"
 	}
+	// optionally the second entry comes under a second header that denotes the same group
+	second := ""
+	if n == 2 && section <= 2 && v.Choice(2) == 1 {
+		switch section {
+		case 0:
+			second = "[Application Options]"
+		case 1:
+			second = "[application options]"
+		case 2:
+			second = "[GRP]"
+		}
+	}
 	var flags []string
 	for e := 0; e < n; e++ {
 		oi := cands[v.Choice(len(cands))]
@@ -145,6 +157,9 @@ func H_C13_equiv(v *V) {
 			val = k + ":" + x
 		default:
 			val = c14Value(v, v.Shape("lv"))
+		}
+		if e == 1 && second != "" {
+			text += second + "\n"
 		}
 		text += key + " = " + val + "\n"
 		if t.kind == 3 {
